@@ -313,6 +313,16 @@ func checkMessage(m message.Message) *ev.Failure {
 			return ev.Failf("C11.3 byte-count", "%s EncodeTo reports %d bytes for %s, produced %d", c.name, n1, msggen.TypeName(m), buf.Len())
 		}
 		raw := append([]byte(nil), buf.Bytes()...)
+		// history: the codec has just been offered input it rejects (a cut-off frame, a damaged frame). The round trip must not
+		// depend on what the decoder saw before (seeded change C11/m2: a pooled decode buffer kept the rejected bytes).
+		if len(raw) > 1 {
+			c.enc.DecodeFrom(bytes.NewReader(raw[:len(raw)/2]))
+			bad := append([]byte(nil), raw...)
+			bad[len(bad)/3] ^= 0xa5
+			bad[len(bad)-1] ^= 0xff
+			c.enc.DecodeFrom(bytes.NewReader(bad))
+			c.enc.DecodeFrom(bytes.NewReader([]byte{0xff, 0xff, 0xff, 0xff, 0x0f, 0x7b}))
+		}
 		n2, m2, err := c.enc.DecodeFrom(bytes.NewReader(raw))
 		if err != nil {
 			return ev.Failf("C11.1 decode", "%s cannot decode its own encoding of %s: %v", c.name, msggen.TypeName(m), err)
